@@ -1,6 +1,33 @@
 // @unit c05_validator property=C05 attach=typify-impl/src/util.rs
-// @h c05_is_valid_one_char tier=both bounded=strings-of-at-most-1-unicode-scalar-value
-// @h c05_is_valid_two_chars tier=both bounded=strings-of-at-most-2-unicode-scalar-values
+// @h c05_is_valid_empty tier=both bounded=the-empty-string
+// @h c05_is_valid_w1 tier=both bounded=1-scalar-value
+// @h c05_is_valid_w2 tier=both bounded=1-scalar-value
+// @h c05_is_valid_w3 tier=both bounded=1-scalar-value
+// @h c05_is_valid_w4 tier=both bounded=1-scalar-value
+// @h c05_is_valid_w1_w1 tier=both bounded=2-scalar-values
+// @h c05_is_valid_w1_w2 tier=both bounded=2-scalar-values
+// @h c05_is_valid_w1_w3 tier=both bounded=2-scalar-values
+// @h c05_is_valid_w1_w4 tier=both bounded=2-scalar-values
+// @h c05_is_valid_w2_w1 tier=both bounded=2-scalar-values
+// @h c05_is_valid_w2_w2 tier=both bounded=2-scalar-values
+// @h c05_is_valid_w2_w3 tier=both bounded=2-scalar-values
+// @h c05_is_valid_w2_w4 tier=both bounded=2-scalar-values
+// @h c05_is_valid_w3_w1 tier=both bounded=2-scalar-values
+// @h c05_is_valid_w3_w2 tier=both bounded=2-scalar-values
+// @h c05_is_valid_w3_w3 tier=both bounded=2-scalar-values
+// @h c05_is_valid_w3_w4 tier=both bounded=2-scalar-values
+// @h c05_is_valid_w4_w1 tier=both bounded=2-scalar-values
+// @h c05_is_valid_w4_w2 tier=both bounded=2-scalar-values
+// @h c05_is_valid_w4_w3 tier=both bounded=2-scalar-values
+// @h c05_is_valid_w4_w4 tier=both bounded=2-scalar-values
+// @h c05_is_valid_w1_w1_w1 tier=thorough bounded=3-scalar-values
+// @h c05_is_valid_w1_w2_w3 tier=thorough bounded=3-scalar-values
+// @h c05_is_valid_w2_w2_w2 tier=thorough bounded=3-scalar-values
+// @h c05_is_valid_w3_w1_w4 tier=thorough bounded=3-scalar-values
+// @h c05_is_valid_w4_w4_w4 tier=thorough bounded=3-scalar-values
+// @h c05_is_valid_w4_w3_w2 tier=thorough bounded=3-scalar-values
+// @h c05_is_valid_w2_w4_w1 tier=thorough bounded=3-scalar-values
+// @h c05_is_valid_w3_w3_w3 tier=thorough bounded=3-scalar-values
 // @h c05_validator_new tier=both
 // @canary canary_c05_validator
 //
@@ -15,30 +42,84 @@
 //   P1n StringValidator::new(name, Some({max, min, pattern: None})) is Ok and carries
 //       exactly those bounds; new(name, None) carries none
 //
-// `s` is built on a stack buffer from symbolic `char`s (every scalar value, all four
-// UTF-8 widths) -- bounded in the NUMBER of characters, not in which characters.
+// `s` is built on a stack buffer from symbolic well-formed UTF-8 sequences: every scalar
+// value of the harness's width class (the four classes together are all of Unicode) --
+// bounded in the NUMBER of characters (0, 1, 2), not in which characters. All 1 + 4 + 16 width
+// layouts of at most two characters; eight 3-character layouts in the thorough tier.
 
 use super::*;
 
-fn any_string_of<'a>(buf: &'a mut [u8; 8], max_chars: usize) -> (&'a str, usize) {
-    let n: usize = kani::any();
-    kani::assume(n <= max_chars);
-    let mut len = 0;
-    let mut i = 0;
-    while i < max_chars {
-        if i < n {
-            let c: char = kani::any();
-            len += c.encode_utf8(&mut buf[len..]).len();
-        }
-        i += 1;
-    }
-    let s = unsafe { core::str::from_utf8_unchecked(&buf[..len]) };
-    (s, n)
+/// stub for `regress::Regex::find` (the backtracking matcher is far outside CBMC's reach and
+/// is statically reachable from is_valid); never reached here because no pattern is given.
+fn stub_regex_find(_re: &regress::Regex, _s: &str) -> Option<regress::Match> {
+    kani::assert(false, "[TOOL] regress::Regex::find reached: unsupported in this harness");
+    None
 }
 
-fn check_is_valid(max_chars: usize) {
-    let mut buf = [0u8; 8];
-    let (s, n) = any_string_of(&mut buf, max_chars);
+/// Write one symbolic Unicode scalar value of UTF-8 width `w` at `buf[at..at + w]`: every
+/// well-formed sequence of that width (RFC 3629 table: no overlong forms, no surrogates,
+/// nothing above U+10FFFF). The width -- hence the byte length of the string -- is concrete
+/// per harness: with a symbolic length CBMC also executes std's long-string counting path
+/// (`do_count_chars`, raw pointer alignment) and does not terminate.
+fn put_char(buf: &mut [u8; 12], at: usize, w: usize) {
+    let b0: u8 = kani::any();
+    let b1: u8 = kani::any();
+    let b2: u8 = kani::any();
+    let b3: u8 = kani::any();
+    match w {
+        1 => {
+            kani::assume(b0 < 0x80);
+            buf[at] = b0;
+        }
+        2 => {
+            kani::assume(0xC2 <= b0 && b0 <= 0xDF);
+            kani::assume(0x80 <= b1 && b1 <= 0xBF);
+            buf[at] = b0;
+            buf[at + 1] = b1;
+        }
+        3 => {
+            kani::assume(0xE0 <= b0 && b0 <= 0xEF);
+            let lo = if b0 == 0xE0 { 0xA0 } else { 0x80 };
+            let hi = if b0 == 0xED { 0x9F } else { 0xBF };
+            kani::assume(lo <= b1 && b1 <= hi);
+            kani::assume(0x80 <= b2 && b2 <= 0xBF);
+            buf[at] = b0;
+            buf[at + 1] = b1;
+            buf[at + 2] = b2;
+        }
+        _ => {
+            kani::assume(0xF0 <= b0 && b0 <= 0xF4);
+            let lo = if b0 == 0xF0 { 0x90 } else { 0x80 };
+            let hi = if b0 == 0xF4 { 0x8F } else { 0xBF };
+            kani::assume(lo <= b1 && b1 <= hi);
+            kani::assume(0x80 <= b2 && b2 <= 0xBF);
+            kani::assume(0x80 <= b3 && b3 <= 0xBF);
+            buf[at] = b0;
+            buf[at + 1] = b1;
+            buf[at + 2] = b2;
+            buf[at + 3] = b3;
+        }
+    }
+}
+
+/// `w1`, `w2`, `w3`: UTF-8 widths of the characters; 0 = absent.
+fn check_is_valid(w1: usize, w2: usize, w3: usize) {
+    let mut buf = [0u8; 12];
+    let mut n: u32 = 0;
+    if w1 > 0 {
+        put_char(&mut buf, 0, w1);
+        n += 1;
+    }
+    if w2 > 0 {
+        put_char(&mut buf, w1, w2);
+        n += 1;
+    }
+    if w3 > 0 {
+        put_char(&mut buf, w1 + w2, w3);
+        n += 1;
+    }
+    let len = w1 + w2 + w3;
+    let s = unsafe { core::str::from_utf8_unchecked(&buf[..len]) };
     let max_length: Option<u32> = kani::any();
     let min_length: Option<u32> = kani::any();
     let v = StringValidator {
@@ -47,31 +128,60 @@ fn check_is_valid(max_chars: usize) {
         pattern: None,
     };
     let got = v.is_valid(s);
-    let n = n as u32;
     let want = min_length.map_or(true, |m| m <= n) && max_length.map_or(true, |m| n <= m);
     kani::assert(
         got == want,
         "[C05/P1] enum-value length filter disagrees with the Unicode-scalar-value count",
     );
-    kani::cover!(got && s.len() as u32 > n, "[must] a multi-byte string is accepted");
+    kani::cover!(got, "[must] a string is accepted");
     kani::cover!(!got, "[must] a string is rejected");
     core::mem::forget(v);
 }
 
-#[kani::proof]
-#[kani::unwind(12)]
-fn c05_is_valid_one_char() {
-    check_is_valid(1)
+macro_rules! iv {
+    ($name:ident, $w1:expr, $w2:expr, $w3:expr) => {
+        #[kani::proof]
+        #[kani::unwind(16)]
+        #[kani::stub(regress::Regex::find, stub_regex_find)]
+        fn $name() {
+            check_is_valid($w1, $w2, $w3)
+        }
+    };
 }
+
+iv!(c05_is_valid_empty, 0, 0, 0);
+iv!(c05_is_valid_w1, 1, 0, 0);
+iv!(c05_is_valid_w2, 2, 0, 0);
+iv!(c05_is_valid_w3, 3, 0, 0);
+iv!(c05_is_valid_w4, 4, 0, 0);
+iv!(c05_is_valid_w1_w1, 1, 1, 0);
+iv!(c05_is_valid_w1_w2, 1, 2, 0);
+iv!(c05_is_valid_w1_w3, 1, 3, 0);
+iv!(c05_is_valid_w1_w4, 1, 4, 0);
+iv!(c05_is_valid_w2_w1, 2, 1, 0);
+iv!(c05_is_valid_w2_w2, 2, 2, 0);
+iv!(c05_is_valid_w2_w3, 2, 3, 0);
+iv!(c05_is_valid_w2_w4, 2, 4, 0);
+iv!(c05_is_valid_w3_w1, 3, 1, 0);
+iv!(c05_is_valid_w3_w2, 3, 2, 0);
+iv!(c05_is_valid_w3_w3, 3, 3, 0);
+iv!(c05_is_valid_w3_w4, 3, 4, 0);
+iv!(c05_is_valid_w4_w1, 4, 1, 0);
+iv!(c05_is_valid_w4_w2, 4, 2, 0);
+iv!(c05_is_valid_w4_w3, 4, 3, 0);
+iv!(c05_is_valid_w4_w4, 4, 4, 0);
+iv!(c05_is_valid_w1_w1_w1, 1, 1, 1);
+iv!(c05_is_valid_w1_w2_w3, 1, 2, 3);
+iv!(c05_is_valid_w2_w2_w2, 2, 2, 2);
+iv!(c05_is_valid_w3_w1_w4, 3, 1, 4);
+iv!(c05_is_valid_w4_w4_w4, 4, 4, 4);
+iv!(c05_is_valid_w4_w3_w2, 4, 3, 2);
+iv!(c05_is_valid_w2_w4_w1, 2, 4, 1);
+iv!(c05_is_valid_w3_w3_w3, 3, 3, 3);
 
 #[kani::proof]
 #[kani::unwind(12)]
-fn c05_is_valid_two_chars() {
-    check_is_valid(2)
-}
-
-#[kani::proof]
-#[kani::unwind(12)]
+#[kani::stub(regress::Regex::new, crate::verif_common::stub_regex_new)]
 fn c05_validator_new() {
     let max_length: Option<u32> = kani::any();
     let min_length: Option<u32> = kani::any();
